@@ -106,6 +106,14 @@ def recover_from(spec: dict[str, Any], cs: dict[str, Any], after_execute: bool =
     wf = run.workflow()
     res["half_started"] = [s.name for s in wf.stages if s.status.name == "NOT_STARTED" and s.start_time is not None]
     res["events_world"] = w if events else None
+    res["buffered"] = {}
+    for sid, ctx in w.rows("SELECT id, context FROM stage_executions"):
+        try:
+            b = json.loads(ctx or "{}").get("_buffered_signals")
+        except Exception:  # noqa: BLE001
+            b = None
+        if b:
+            res["buffered"][sid.replace("W1-", "")] = b
     return res
 
 
